@@ -114,6 +114,7 @@ fn main() {
     p!("BC_TRAILER_LENGTH", bbd::TRAILER_LENGTH);
     p!("BC_HEADER_LENGTH", brd::HEADER_LENGTH);
     p!("BC_RECORD_ALIGNMENT", brd::RECORD_ALIGNMENT);
+    p!("BC_MAX_MSG_1024", brd::calculate_max_message_length(1024));
     // counters
     p!("NULL_COUNTER_ID", counters::NULL_COUNTER_ID);
     p!("RECORD_UNUSED", counters::RECORD_UNUSED);
